@@ -10,6 +10,11 @@ _ENGINE_NOTE = "Trusted: gosym (own SSA->SMT executor; validated per run by diff
 _CONC_TECH = "bounded symbolic execution of the real code from go/ssa in the executor's concurrent mode: goroutine interleavings at synchronisation operations are decision variables of the path (case-split within a preemption bound), a vector-clock happens-before monitor checks every load/store, operation choices are SMT variables (z3); violating schedules are replayed natively under the Go race detector"
 
 META = {
+    "C15": {
+        "text": "Bounded model checking of shared generator values under concurrent use: for 18 generator families one instance is used by 2-3 goroutines (own T, own bitstream) performing solver-chosen sequences of Draw / String / use-as-sub-generator, first and later uses; every interleaving of synchronisation operations within the preemption bound is explored; a happens-before monitor shows there is no data race on anything reachable from the generator or on package-level caches, and each goroutine's results equal those of the same operations on a private instance run alone.",
+        "note": _ENGINE_NOTE + " Concurrency: sequentially consistent interleavings, switches at synchronisation operations only, preemption bound 1-2, 2-3 goroutines x 1-2 operations, two fixed bitstreams; Make and the regexp engine are outside the claim.",
+        "technique": _CONC_TECH,
+    },
     "C14": {
         "text": "Bounded model checking of the real T methods under concurrent calls: the property body starts 2-3 goroutines that call solver-chosen sequences of Helper/Name/Logf/Errorf/Fail/Failed/Context/Cleanup on the shared T (also overlapping the end of the invocation: failOnError, context cancellation, cleanup loop); every interleaving of synchronisation operations within the preemption bound is explored; on each, a happens-before monitor shows the absence of data races on T and the assertions show: a failure signalled from any goroutine falsifies the case, every registered cleanup runs exactly once, all goroutines see one live context.",
         "note": _ENGINE_NOTE + " Concurrency: sequentially consistent interleavings, switches at synchronisation operations only, preemption bound 2-3, at most 3 goroutines x 2 calls; models of sync/atomic primitives with the Go memory model's happens-before edges.",
